@@ -29,7 +29,7 @@ func init() {
 		Technique: "taint-token runtime monitor: every login presents a unique random password token and every scope has a unique random secret token; an injected logger records all rendered messages, Record maps minus the keys the call marks as obscured and the fields selected for retention, and forwards to the stock cmds/server/log.Logger at debug level writing to a buffer; everything captured is searched for the tokens (plain, %q, hex, base64)",
 		Rule: "sessions: every action x authen type x service x minor version START carrying the token in data; ASCII logins whose GETPASS answer is the token (user in START or in CONTINUE; known/unknown user; right/wrong password); PAP right/wrong/unknown user/minor 0; abort at each step; START mid-exchange; CONTINUE to a fresh session; connections using a wrong key; authorization and accounting of the same users. " +
 			"A class is (flow, START action/type/minor or step, user kind, outcome status); distinct_nontrivial counts classes",
-		Assumptions: []string{"the stock logger at level 30 (debug) emits a superset of levels 10 and 20, so one capture at level 30 decides all levels",
+		Assumptions: []string{"the stock logger runs at level 30 (debug) in half of the batches and at levels 10 and 20 in a quarter each; one logger per server, as deployed",
 			"a value given to Record under a key that the same call lists as to be obscured is not a leak (as the property states)"},
 		MinClasses: func(tier string) int { return 120 },
 	})
@@ -94,7 +94,12 @@ func runC18(b *mon.B) {
 	defer ref.Close()
 	ref.Net.SetKeepLog(false)
 	stock := &syncBuf{}
-	ref.Log.Forward = stockLogger{srvlog.New(30, stock)}
+	// the stock logger runs at debug level in half of the batches and at the error / info levels in
+	// the others: what is masked at one level must be masked at the others too (one logger per
+	// server, as deployed: the stock Record masks the caller's map in place)
+	stockLevel := []int{30, 10, 30, 20}[b.Index%4]
+	b.Class("stock-logger-level-%d", stockLevel)
+	ref.Log.Forward = stockLogger{srvlog.New(stockLevel, stock)}
 	// what the loader logged while loading must not contain the scope secret either
 	key := []byte(secretTok)
 	caseNo := 0
